@@ -603,7 +603,7 @@ def receiveAppAnswer (s : St) (m : AMsg) : St :=
 
 /-- First statement of `_receive_message`: remember the origin of the message. -/
 def recordOrigin (s : St) (cid : Nat) (m : AMsg) (info : MsgInfo) : St :=
-  if info.hasOH then
+  if info.hasOH && (m.isRequest || !Config.originOnlyRequests) then
     { s with originWaiting :=
         if s.originWaiting.any (·.1 == originKey cid m) then
           s.originWaiting.map fun (k, v) => if k == originKey cid m then (k, m.oh) else (k, v)
